@@ -221,7 +221,7 @@ def bind_ctor_args(cls, stream, cm, size=None):
 # ---------------------------------------------------------------------------
 # provenance
 TRANSPARENT = {"strop", "strformat", "fstring", "str", "int", "list", "tuple", "sorted", "Add", "concat", "extend", "slice"}
-LEAF_OPS = {"uleb128", "uleb128p1", "sleb128", "cstring", "param", "leblen", "strlen"}
+LEAF_OPS = {"uleb128", "uleb128p1", "sleb128", "cstring", "param", "leblen", "strlen", "cursor"}
 
 
 class Opaque(Exception):
@@ -574,6 +574,8 @@ class CallGraph:
         self._cm_attrs = {}
         self._container_attrs = {}
         self._cache = {}
+        self.cmi = None       # CMInfo, set by the caller for table typing
+        self.sections = {}    # member name -> types of the table entry
 
     # -- typing helpers -----------------------------------------------------------
     def cm_attrs(self, cls):
@@ -621,22 +623,111 @@ class CallGraph:
                 out.add(p.arg)
         return out
 
+    # types are lists of ("inst", Cls) / ("list", Cls)
     def classes_in_annotation(self, ann):
+        """annotation -> types; `list[X]` / `List[X]` / `Iterator[X]` give ("list", X)"""
         out = []
         if ann is None:
             return out
-        for n in ast.walk(ann):
+
+        def add(t):
+            if t not in out:
+                out.append(t)
+
+        def walk(n, in_list):
+            if isinstance(n, ast.Subscript):
+                head = dotted(n.value) or ""
+                if head.split(".")[-1] in ("list", "List", "Iterator", "Iterable", "Sequence"):
+                    walk(n.slice, True)
+                else:
+                    walk(n.slice, in_list)
+                return
+            if isinstance(n, ast.Tuple):
+                for e in n.elts:
+                    walk(e, in_list)
+                return
+            if isinstance(n, ast.BinOp):
+                walk(n.left, in_list)
+                walk(n.right, in_list)
+                return
             name = None
             if isinstance(n, ast.Name):
                 name = n.id
             elif isinstance(n, ast.Constant) and isinstance(n.value, str):
                 name = n.value
             if name and name in self.m.classes:
-                out.append(self.m.classes[name])
+                add(("list" if in_list else "inst", self.m.classes[name]))
+
+        walk(ann, False)
+        return out
+
+    def attr_types(self, cls, attr):
+        """types of instance attribute `attr` of cls from its assignments (constructor call, list display /
+        comprehension of constructor calls, .append(Constructor(...)))"""
+        key = ("attr", cls.name, attr)
+        if key in self._cache:
+            return self._cache[key]
+        out = []
+        self._cache[key] = out
+
+        def add(t):
+            if t not in out:
+                out.append(t)
+
+        def ctor(e, f):
+            if isinstance(e, ast.Call) and isinstance(e.func, ast.Name):
+                r = f.module.resolve_name(e.func.id)
+                if r and r[0] == "class":
+                    return r[1]
+            return None
+
+        for c in cls.mro():
+            for f in c.methods.values():
+                for n in walk_no_nested(f.node):
+                    if isinstance(n, ast.Assign):
+                        for t in n.targets:
+                            if isinstance(t, ast.Attribute) and isinstance(t.value, ast.Name) and t.value.id == "self" and t.attr == attr:
+                                v = n.value
+                                k = ctor(v, f)
+                                if k is not None:
+                                    add(("inst", k))
+                                elif isinstance(v, ast.ListComp) and ctor(v.elt, f) is not None:
+                                    add(("list", ctor(v.elt, f)))
+                                elif isinstance(v, ast.List):
+                                    for e in v.elts:
+                                        if ctor(e, f) is not None:
+                                            add(("list", ctor(e, f)))
+                    elif isinstance(n, ast.Call) and isinstance(n.func, ast.Attribute) and n.func.attr == "append" and n.args:
+                        tg = n.func.value
+                        if isinstance(tg, ast.Attribute) and isinstance(tg.value, ast.Name) and tg.value.id == "self" and tg.attr == attr:
+                            a = n.args[0]
+                            k = ctor(a, f)
+                            if k is None and isinstance(a, ast.Name):
+                                for tt in self.local_types(f).get(a.id, []):
+                                    if tt[0] == "inst":
+                                        add(("list", tt[1]))
+                            elif k is not None:
+                                add(("list", k))
+        return out
+
+    def return_types(self, f):
+        key = ("ret", f.qualname)
+        if key in self._cache:
+            return self._cache[key]
+        out = list(self.classes_in_annotation(f.node.returns))
+        self._cache[key] = out
+        if out:
+            return out
+        types = self.local_types(f)
+        for n in walk_no_nested(f.node):
+            if isinstance(n, ast.Return) and n.value is not None:
+                for t in self.expr_types(n.value, f, types):
+                    if t not in out:
+                        out.append(t)
         return out
 
     def local_types(self, f):
-        """{local name: [Cls]} from constructor calls, annotated callee returns and parameter annotations"""
+        """{local name: types} from parameter annotations, assignments, for-loops and comprehensions"""
         key = ("lt", f.qualname)
         if key in self._cache:
             return self._cache[key]
@@ -647,36 +738,71 @@ class CallGraph:
             cs = self.classes_in_annotation(p.annotation)
             if cs:
                 types[p.arg] = cs
-        for _ in range(2):
-            for n in walk_no_nested(f.node):
+
+        def bind(name, ts):
+            if ts:
+                cur = types.setdefault(name, [])
+                for t in ts:
+                    if t not in cur:
+                        cur.append(t)
+
+        for _ in range(3):
+            for n in ast.walk(f.node):
                 if isinstance(n, ast.Assign) and len(n.targets) == 1 and isinstance(n.targets[0], ast.Name):
-                    cs = self.expr_types(n.value, f, types)
-                    if cs:
-                        types.setdefault(n.targets[0].id, [])
-                        for c in cs:
-                            if c not in types[n.targets[0].id]:
-                                types[n.targets[0].id].append(c)
+                    bind(n.targets[0].id, self.expr_types(n.value, f, types))
+                elif isinstance(n, (ast.For, ast.comprehension)) and isinstance(n.target, ast.Name):
+                    bind(n.target.id, [("inst", t[1]) for t in self.expr_types(n.iter, f, types) if t[0] == "list"])
         return types
+
+    def section_types(self, member):
+        """types of ClassManager's table entry for a map section (set by the C07 rule from MapItem.parse)"""
+        return self.sections.get(member, [])
 
     def expr_types(self, e, f, types):
         if isinstance(e, ast.Name):
+            if e.id == "self" and f.cls is not None:
+                return [("inst", f.cls)]
             return types.get(e.id, [])
+        if isinstance(e, ast.Attribute) and isinstance(e.value, ast.Name) and e.value.id == "self" and f.cls is not None:
+            return self.attr_types(f.cls, e.attr)
+        if isinstance(e, ast.Subscript):
+            # ClassManager tables
+            if self.cmi is not None and f.cls is self.cm_cls and isinstance(e.value, ast.Attribute) \
+                    and isinstance(e.value.value, ast.Name) and e.value.value.id == "self":
+                attr = e.value.attr
+                if attr == self.cmi.table_attr:
+                    mem = self.cmi.member_of(e.slice)
+                    return self.section_types(mem) if mem else []
+                if attr in self.cmi.side_attrs:
+                    return [("inst", t[1]) for t in self.section_types(self.cmi.side_attrs[attr]) if t[0] == "list"]
+            if isinstance(e.slice, ast.Slice):
+                return self.expr_types(e.value, f, types)
+            return [("inst", t[1]) for t in self.expr_types(e.value, f, types) if t[0] == "list"]
         if isinstance(e, ast.Call):
             fn = e.func
             if isinstance(fn, ast.Name):
                 r = f.module.resolve_name(fn.id)
                 if r and r[0] == "class":
-                    return [r[1]]
+                    return [("inst", r[1])]
                 if r and r[0] == "func":
-                    return self.classes_in_annotation(r[1].node.returns)
+                    return self.return_types(r[1])
                 return []
             if isinstance(fn, ast.Attribute):
+                # side table .get(k)
+                if self.cmi is not None and f.cls is self.cm_cls and fn.attr == "get" and isinstance(fn.value, ast.Attribute) \
+                        and isinstance(fn.value.value, ast.Name) and fn.value.value.id == "self" and fn.value.attr in self.cmi.side_attrs:
+                    return [("inst", t[1]) for t in self.section_types(self.cmi.side_attrs[fn.value.attr]) if t[0] == "list"]
                 out = []
                 for callee, precise in self.resolve_method(fn, f, types):
-                    for c in self.classes_in_annotation(callee.node.returns):
-                        if c not in out:
-                            out.append(c)
+                    for t in self.return_types(callee):
+                        if t not in out:
+                            out.append(t)
                 return out
+        if isinstance(e, ast.ListComp):
+            ts = self.expr_types(e.elt, f, types)
+            return [("list", t[1]) for t in ts if t[0] == "inst"]
+        if isinstance(e, ast.IfExp):
+            return self.expr_types(e.body, f, types) + self.expr_types(e.orelse, f, types)
         return []
 
     def resolve_method(self, fn, f, types):
@@ -703,30 +829,28 @@ class CallGraph:
         # ClassName.m()
         if isinstance(recv, ast.Name):
             r = f.module.resolve_name(recv.id)
-            if r and r[0] == "class":
+            if r and r[0] == "class" and recv.id not in types:
                 t = r[1].lookup(name)
                 return [(t, True)] if t is not None else []
             if r and r[0] == "module":
                 return []
-            if recv.id in types:
-                out = []
-                for c in types[recv.id]:
-                    t = c.lookup(name)
-                    if t is not None:
-                        out.append((t, True))
-                if out:
-                    return out
         # builtin containers held in self attributes
         if isinstance(recv, ast.Attribute) and isinstance(recv.value, ast.Name) and recv.value.id == "self" \
-                and recv.attr in self.container_attrs(f.cls) and name in self.CONTAINER_METHODS:
+                and recv.attr in self.container_attrs(f.cls) and name in self.CONTAINER_METHODS \
+                and not self.attr_types(f.cls, recv.attr):
             return []
         if isinstance(recv, ast.Constant):
             return []
-        # typed sub-expression (call with annotated return)
-        if isinstance(recv, ast.Call):
-            cs = self.expr_types(recv, f, types)
-            out = [(c.lookup(name), True) for c in cs if c.lookup(name) is not None]
-            if out:
+        # typed receiver expression
+        ts = self.expr_types(recv, f, types)
+        if ts:
+            out = []
+            for kind, c in ts:
+                if kind == "inst":
+                    t = c.lookup(name)
+                    if t is not None and (t, True) not in out:
+                        out.append((t, True))
+            if out or all(kind == "list" for kind, c in ts):
                 return out
         # fallback: every definer in the module
         ds = self.definers.get(name, [])
@@ -790,3 +914,57 @@ class CallGraph:
             out.append(q)
             q = closure[q][2]
         return list(reversed(out))
+
+
+# ---------------------------------------------------------------------------
+def parse_constructors(repo, folder, cmi):
+    """{map type member: [(class name, in_list)]} -- the item constructors MapItem.parse() runs for each type,
+    obtained by abstractly executing parse() with the type attribute fixed (no source pattern matching)."""
+    m = repo.mod(DEX)
+    mi_cls = m.cls("MapItem")
+    parse = mi_cls.lookup("parse")
+    if parse is None:
+        raise AnalysisError("anchor vanished: MapItem.parse")
+    tslot = Sym("enum", cmi.enum_cls.name, slot_bits(0, 0, 2))
+    out = {}
+
+    class _P(DexInterp):
+        def _h_call(self, it, name, callee, args, kwargs, e, func):
+            if isinstance(callee, Ref) and callee.kind == "class" and callee.obj.module.relpath == DEX and not self.construct(callee.obj):
+                sts = [a for a in args if isinstance(a, StreamV)]
+                for st in sts:
+                    st.log.append(("new", callee.obj.name, e))
+                if sts:
+                    return Sym("new", callee.obj.name)
+            return super()._h_call(it, name, callee, args, kwargs, e, func)
+
+    for name, val in sorted(cmi.members.items(), key=lambda kv: int(kv[1])):
+        def run(asg, val=val):
+            it = _P(repo, folder, asg=dict(asg), construct=lambda c: c.name == "MapItem")
+            st = StreamV("buff", index=0)
+            o = it.construct_obj(mi_cls, bind_ctor_args(mi_cls, st, Sym("cm")))
+            hit = 0
+            for k, v in list(o.attrs.items()):
+                if v == tslot:
+                    o.attrs[k] = val
+                    hit += 1
+            if hit != 1:
+                raise AnalysisError("MapItem: the attribute holding TypeMapItem(<type field>) was not identified")
+            mark = len(st.log)
+            it.call_function(parse, [], recv=o)
+            return st.log[mark:]
+
+        found = []
+        for asg, log in explore(run):
+            if isinstance(log, Raised):
+                raise AnalysisError("MapItem.parse raises for type %s on an abstract path: %s" % (name, log))
+            for ev in log:
+                if ev[0] == "new":
+                    pn, in_list = getattr(ev[2], "_parent", None), False
+                    while pn is not None and not isinstance(pn, ast.stmt):
+                        in_list = in_list or isinstance(pn, (ast.ListComp, ast.List))
+                        pn = getattr(pn, "_parent", None)
+                    if (ev[1], in_list) not in found:
+                        found.append((ev[1], in_list))
+        out[name] = found
+    return out
